@@ -210,7 +210,7 @@ impl Case {
     // ------------------------------------------------------------------ monitors (ghost-based)
 
     /// A REG1 left the manager towards `target`.
-    fn on_reg1_emit(&mut self, target: usize, pkt: &[u8], now: u64, mon: &mut Mon, path: &str) {
+    fn on_reg1_emit(&mut self, target: usize, pkt: &[u8], now: u64, mon: &mut Mon, path: &str, from_driver: bool) {
         if !self.outstanding.is_empty() && !self.outstanding.contains(&target) {
             mon.fail(
                 P,
@@ -237,8 +237,17 @@ impl Case {
         if self.outstanding.is_empty() {
             self.attempt_started_at = now;
         }
+        // A REG1 that the DRIVER repeats on the uplink it is already awaiting REG2 on is not a new
+        // attempt: the 4 s of "an unanswered REG1 is abandoned after the 4 s timeout" keep running
+        // from the REG1 that opened the attempt (only the reconnect re-send, on a fresh socket, and
+        // a REG_NGP-triggered REG1 after an abandonment start a new wait).
+        let driver_repeat = self.outstanding.contains(&target) && from_driver;
+        if driver_repeat {
+            mon.count("drv-reg1-repeat-while-pending");
+        } else {
+            self.last_reg1_at = now;
+        }
         self.outstanding.insert(target);
-        self.last_reg1_at = now;
         self.abandoned = false;
     }
 
@@ -485,7 +494,7 @@ impl Case {
                 // known side observation (not alarmed): active_connections is housekeeping-stale
                 mon.count("side:immediate-reg1-with-connected-link");
             }
-            self.on_reg1_emit(idx, p, now, mon, &what);
+            self.on_reg1_emit(idx, p, now, mon, &what, false);
             out.push(Sent { kind: "reg1imm", target: Some(idx), pkt: p.clone() });
         } else if ngp_must_answer {
             mon.fail(
@@ -603,7 +612,7 @@ impl Case {
             Some(p) if p == idx => {
                 mon.count("hk-reg1-resend");
                 let pkt = self.reg.build_reg1_for(idx, now);
-                self.on_reg1_emit(idx, &pkt, now, mon, &what);
+                self.on_reg1_emit(idx, &pkt, now, mon, &what, false);
                 out.push(Sent { kind: "reg1hk", target: Some(idx), pkt: pkt.to_vec() });
             }
             Some(_) => mon.count("hk-defer"),
@@ -812,7 +821,7 @@ impl Case {
                         // side observation (not alarmed): the re-send renews the 4000 ms wait
                         mon.count("side:deadline-renewed-by-housekeeping-resend");
                     }
-                    self.on_reg1_emit(i, p, now, mon, &what);
+                    self.on_reg1_emit(i, p, now, mon, &what, !is_hk_resend);
                 } else {
                     reg2s += 1;
                     self.on_reg2_emit(p, mon, &what);
@@ -922,7 +931,7 @@ impl Case {
                     format!("{what}: driver REG1 to {idx} with active={} connected links={registered}", pre.active_connections),
                 );
             }
-            self.on_reg1_emit(idx, &pkt, now, mon, &what);
+            self.on_reg1_emit(idx, &pkt, now, mon, &what, true);
             out.push(Sent { kind: "reg1drv", target: Some(idx), pkt: pkt.to_vec() });
         } else if pre.active_connections == 0 && pre.reg1_target_idx.is_some() {
             mon.count(if pre.pending_reg2_idx.is_some() {
